@@ -606,6 +606,9 @@ func genFacts(repo string) []byte {
 		"StreamFrameTypeHandoff", "StreamFrameTypeHWM", "StreamFrameTypeHeartbeat",
 		"MaxChunkSize", "EOF", "ChecksumBlockSize", "SQLITE_DATABASE_HEADER_SIZE",
 		"SQLITE_JOURNAL_HEADER_SIZE", "MaxBackupLTXFileN", "HaltLockID",
+		"LockTypeHalt", "LockTypePending", "LockTypeReserved", "LockTypeShared",
+		"LockTypeWrite", "LockTypeCkpt", "LockTypeRecover", "LockTypeRead0", "LockTypeRead1",
+		"LockTypeRead2", "LockTypeRead3", "LockTypeRead4", "LockTypeDMS",
 	}
 	var b strings.Builder
 	b.WriteString("-- GENERATED by /verif/translator from /repo constants. DO NOT EDIT.\n")
